@@ -152,6 +152,8 @@ class Facts:
         self.adts = {a["def"]: a for a in raw["adts"]}
         from . import thirlib
         thirlib.register_adts(self.adts)
+        from . import alpha
+        self.renamed = alpha.canonicalise(self)
 
     def const(self, name):
         c = self.consts.get(name)
